@@ -65,7 +65,13 @@ def _corpus():
         for ap in ("am", "pm", "a.m.", "p.m."):
             out.append(("tomorrow {} {}".format(h, ap), "2018-03-07T12:43"))
             out.append(("{}:30 {}".format(h, ap), "2018-03-07T12:43"))
+    # texts with #hashtags whose body looks like a time expression: a label is cut out whatever its letter case
+    for t in ("pay rent #friday", "#sprint5 tomorrow", "plan #v2 friday 10:00", "#fun meet john tomorrow 5pm", "tomorrow #work-8pm 5pm", "#may-12 call bob", "next #monday-9am week friday"):
+        out.append((t, "2018-03-07T12:43"))
     return list(dict.fromkeys(out))
+
+
+LONG_RUNS = [" " * 300, "\n" * 300, "\u00a0" * 260, " \t" * 200]
 
 
 def _all_pd():
@@ -96,6 +102,12 @@ def plan(tier, seed):
                 for d in pd:
                     yield ("e2e", "dash", d, text, ts)
             yield ("e2e", "wrap", " ,;( ", text, ts)
+            # separator runs far longer than any sentence (a run is ONE blank however long it is)
+            if i % (1 if tier == "thorough" else 3) == 0 or "#" in text:
+                for v in LONG_RUNS:
+                    yield ("e2e", "sep", v, text, ts)
+                yield ("e2e", "wrap", "\n" * 300, text, ts)
+                yield ("e2e", "wrap", " " * 257, text, ts)
 
     n_dash_sent = sum(1 for t, _ in corp if "-" in t)
     space = {
@@ -105,6 +117,7 @@ def plan(tier, seed):
         "runs_len_le3": len(runs_alpha) + len(runs_alpha) ** 2 + len(runs_alpha) ** 3,
         "corpus_sentences": len(corp),
         "separator_variants": len(sep_variants),
+        "long_run_variants": [len(r) for r in LONG_RUNS] + [300, 257],
         "case_variants": 4,
         "dash_characters": len(pd),
         "sentences_with_hyphen": n_dash_sent,
@@ -219,8 +232,8 @@ def run_case(case):
     if got != base:
         o["v"] = [
             viol(
-                {"kind": "e2e_" + vk, "variant": var if vk != "dash" else "U+%04X" % ord(var), "text": text},
-                "{!r} -> {} but variant {!r} -> {}".format(text, fmt(base), t2, fmt(got)),
+                {"kind": "e2e_" + vk, "variant": ("U+%04X" % ord(var)) if vk == "dash" else (var if len(var) <= 8 else "%r x %d" % (var[:2], len(var) // 2) if var[:2] * (len(var) // 2) == var and var[0] != var[1] else "%r x %d" % (var[0], len(var))), "text": text},
+                "{!r} -> {} but variant {} -> {}".format(text, fmt(base), repr(t2) if len(t2) < 120 else "%r... (%d chars)" % (t2[:60], len(t2)), fmt(got)),
                 base,
                 got,
             )
